@@ -87,7 +87,7 @@ def make_scratch(prop, overlay_dirs):
     subprocess.run(
         ["rsync", "-a", "--delete", "--exclude", "/target", "--exclude", "/.git",
          "--exclude", "verif_kani.rs", "--exclude", "/docs", "--exclude", "/assets",
-         REPO + "/", tree + "/"], check=True, stderr=subprocess.DEVNULL)
+         REPO + "/", tree + "/"], check=True, stdout=subprocess.DEVNULL, stderr=subprocess.DEVNULL)
     hooks = hook_points(tree)
     used = set()
     parts = {}
